@@ -15,6 +15,7 @@ import (
 	"os/exec"
 	"strings"
 	"sync"
+	"sync/atomic"
 	"time"
 
 	"github.com/mimiro-io/datahub/internal/jobs"
@@ -150,20 +151,29 @@ func main() {
 			finish(i)
 		}
 	}
-	sem := make(chan struct{}, 8)
-	var wg sync.WaitGroup
+	// 8 workers take the configuration cases in case order (so the case whose answer is printed next is always running)
+	var cfgIdx []int
 	for i := range cases {
-		if cases[i].Kind != "cfg" {
-			continue
+		if cases[i].Kind == "cfg" {
+			cfgIdx = append(cfgIdx, i)
 		}
+	}
+	var nextCfg int32 = -1
+	var wg sync.WaitGroup
+	for w := 0; w < 8; w++ {
 		wg.Add(1)
-		go func(i int) {
+		go func() {
 			defer wg.Done()
-			sem <- struct{}{}
-			defer func() { <-sem }()
-			obs[i] = runChild(cases[i], raws[i], fmt.Sprintf("%s/c11-%d", dir, i))
-			finish(i)
-		}(i)
+			for {
+				k := int(atomic.AddInt32(&nextCfg, 1))
+				if k >= len(cfgIdx) {
+					return
+				}
+				i := cfgIdx[k]
+				obs[i] = runChild(cases[i], raws[i], fmt.Sprintf("%s/c11-%d", dir, i))
+				finish(i)
+			}
+		}()
 	}
 	wg.Wait()
 	if env != nil {
